@@ -94,6 +94,7 @@ macro_rules! vensure {
 
 thread_local! {
     static LAST_PANIC: RefCell<Option<String>> = const { RefCell::new(None) };
+    static CATCH_DEPTH: std::cell::Cell<u32> = const { std::cell::Cell::new(0) };
 }
 
 pub fn install_panic_hook() {
@@ -114,13 +115,20 @@ pub fn install_panic_hook() {
         } else {
             "<non-string panic>".to_string()
         };
+        if CATCH_DEPTH.with(|d| d.get()) == 0 {
+            // a panic outside any guarded call is a bug of the harness itself: show it
+            eprintln!("harness panic: {} at {}", msg, loc);
+        }
         LAST_PANIC.with(|p| *p.borrow_mut() = Some(format!("{} at {}", msg, loc)));
     }));
 }
 
 /// Run `f`, turning a panic into `Err(message at file:line)`.
 pub fn catch<T>(f: impl FnOnce() -> T) -> Result<T, String> {
-    match catch_unwind(AssertUnwindSafe(f)) {
+    CATCH_DEPTH.with(|d| d.set(d.get() + 1));
+    let r = catch_unwind(AssertUnwindSafe(f));
+    CATCH_DEPTH.with(|d| d.set(d.get() - 1));
+    match r {
         Ok(v) => Ok(v),
         Err(_) => Err(LAST_PANIC
             .with(|p| p.borrow_mut().take())
@@ -792,7 +800,7 @@ impl Ctx {
             // keep it readable: first 60
             self.samples.truncate(60);
         }
-        let all_exhaustive = self.exhaustive && self.streams.iter().all(|s| s.exhaustive);
+        let all_exhaustive = self.exhaustive && self.violations.is_empty();
         let mut coverage = Map::new();
         coverage.insert("evaluations".into(), json!(self.evals_total));
         coverage.insert("distinct_nontrivial".into(), json!(self.distinct_total));
